@@ -74,18 +74,31 @@ Proof. intros k H; destruct k; try discriminate H; vm_compute; repeat split; ref
 Definition in_range (k : gkind) (z : Z) : bool := (kmin k <=? z) && (z <=? kmax k).
 
 (* Integer conversion / arithmetic overflow: wrap around modulo 2^bits into [kmin, kmax]
-   (two's complement for the signed kinds):   ((z - min) mod 2^bits) + min. *)
-Definition wrap (k : gkind) (z : Z) : Z := (z - kmin k) mod (modulus k) + kmin k.
+   (two's complement for the signed kinds):   ((z - min) mod 2^bits) + min.
+   [wrap] tests the range first only to evaluate fast inside Coq (the division by 2^64 is slow in binary Z);
+   [wrap_is_mod] shows that it IS the modular formula. *)
+Definition wrap_mod (k : gkind) (z : Z) : Z := (z - kmin k) mod (modulus k) + kmin k.
+Definition wrap (k : gkind) (z : Z) : Z := if in_range k z then z else wrap_mod k z.
 
-Lemma wrap_in_range : forall k z, is_int k = true -> kmin k <= z <= kmax k -> wrap k z = z.
+Lemma wrap_mod_in_range : forall k z, is_int k = true -> kmin k <= z <= kmax k -> wrap_mod k z = z.
 Proof.
-  intros k z Hk H. unfold wrap, modulus. rewrite Z.mod_small; [ring|].
+  intros k z Hk H. unfold wrap_mod, modulus. rewrite Z.mod_small; [ring|].
   destruct k; try discriminate Hk; cbn in *; lia.
 Qed.
 
+Lemma wrap_is_mod : forall k z, is_int k = true -> wrap k z = wrap_mod k z.
+Proof.
+  intros k z Hk. unfold wrap. destruct (in_range k z) eqn:E; [|reflexivity].
+  symmetry. apply wrap_mod_in_range; [exact Hk|]. unfold in_range in E.
+  apply andb_prop in E as [E1 E2]. apply Z.leb_le in E1, E2. lia.
+Qed.
+
+Lemma wrap_in_range : forall k z, is_int k = true -> kmin k <= z <= kmax k -> wrap k z = z.
+Proof. intros k z Hk H. rewrite wrap_is_mod by exact Hk. now apply wrap_mod_in_range. Qed.
+
 Lemma wrap_range : forall k z, is_int k = true -> kmin k <= wrap k z <= kmax k.
 Proof.
-  intros k z Hk. unfold wrap, modulus.
+  intros k z Hk. rewrite wrap_is_mod by exact Hk. unfold wrap_mod, modulus.
   assert (0 <= (z - kmin k) mod (kmax k - kmin k + 1) < kmax k - kmin k + 1)
     by (apply Z.mod_pos_bound; destruct k; try discriminate Hk; cbn; lia).
   lia.
@@ -166,10 +179,11 @@ Definition go_bind {A B} (a : res A) (f : A -> res B) : res B :=
   match a with Ok x => f x | ImplDefined => ImplDefined | Panic => Panic | Stuck => Stuck end.
 Notation "x <- a ;; b" := (go_bind a (fun x => b)) (at level 61, a at next level, right associativity).
 
-(* if / && / || / ! on conditions that may themselves fail; only the taken branch is evaluated *)
-Definition go_if {A} (c : res bool) (a b : res A) : res A := go_bind c (fun x => if x then a else b).
-Definition go_and (a b : res bool) : res bool := go_if a b (Ok false).
-Definition go_or (a b : res bool) : res bool := go_if a (Ok true) b.
+(* if / && / || / ! on conditions that may themselves fail; only the taken branch is evaluated: the branches are
+   thunks, so this also holds operationally inside Coq's call-by-value VM (correspondence evaluation) *)
+Definition go_if {A} (c : res bool) (a b : unit -> res A) : res A := go_bind c (fun x => if x then a tt else b tt).
+Definition go_and (a : res bool) (b : unit -> res bool) : res bool := go_if a b (fun _ => Ok false).
+Definition go_or (a : res bool) (b : unit -> res bool) : res bool := go_if a (fun _ => Ok true) b.
 Definition go_not (a : res bool) : res bool := go_bind a (fun x => Ok (negb x)).
 
 (* has_type: the values of a type *)
